@@ -249,9 +249,9 @@ fn core_plan(prop: &str, thorough: bool, seed: u64, all_cases: &[CaseRec], tidx:
                         replay_case(case, &inst, &cfg, &want_prop, &mut r, &mut st);
                     }
                 }
-                if case.mint.pr.ends_with("public") && !case.mint.pr.starts_with("v1") {
-                    let nbits = if case.mint.pr.starts_with("v3") { 49 * 8 } else { 32 * 8 };
-                    let step = if thorough || !is_slow { 1 } else { 4 };
+                if case.mint.pr.ends_with("public") {
+                    let nbits = if case.mint.pr.starts_with("v1") { 270 * 8 } else if case.mint.pr.starts_with("v3") { 49 * 8 } else { 32 * 8 };
+                    let step = if case.mint.pr.starts_with("v1") { if thorough { 1 } else { 3 } } else if thorough || !is_slow { 1 } else { 4 };
                     for bit in (0..nbits).step_by(step).chain(0..8) {
                         let spec = InstSpec { msg_len: 20, msg_class: bit, json_msg: true, pair_idx: bit, k2: K2Mode::PubBitNeighbour(bit), k1_special: 0, seed_special: 0 };
                         let inst = make_instance(&spec, &pairs, &mut r);
